@@ -263,6 +263,16 @@ def run(index: RepoIndex, rep) -> None:
         '; '.join(src(e.stmt) for e in rets),
         'the state property does not return _state exactly when it is set', 'returns state')
 
+    # reading the state is a read: no store (dropping the memoised observation here would make
+    # every `step` -- which evaluates `self.state` before the action is checked -- and every
+    # read between steps resample the observation), no call that modifies the environment
+    stores = [e for e in w.events if e.kind in ('store', 'attrstore', 'augstore', 'delete')]
+    rep.check(not stores, 'C04.R3', INNER, 'InnerEnv.state', m.node.lineno,
+              '; '.join(src(e.stmt) for e in stores) or 'InnerEnv.state',
+              'reading the state modifies the environment '
+              f'(`{src(stores[0].stmt) if stores else ""}`): the memoised observation would be '
+              'recomputed (consuming randomness) although the state did not change',
+              'state read is pure')
     # ---------------------------------------------------------------- R4
     n_scanned = 0
     for mod in index.modules.values():
